@@ -27,8 +27,16 @@ RULES = [
 
 
 def sh(cmd, cwd=None, timeout=1800):
-    p = subprocess.run(cmd, cwd=cwd, env=ENV, shell=isinstance(cmd, str), stdout=subprocess.PIPE, stderr=subprocess.STDOUT, text=True, timeout=timeout)
-    return p.returncode, p.stdout
+    # own process group, so that a hanging test binary is killed together with cargo
+    p = subprocess.Popen(cmd, cwd=cwd, env=ENV, shell=isinstance(cmd, str), stdout=subprocess.PIPE, stderr=subprocess.STDOUT, text=True, start_new_session=True)
+    try:
+        out, _ = p.communicate(timeout=timeout)
+        return p.returncode, out
+    except subprocess.TimeoutExpired:
+        import signal
+        os.killpg(p.pid, signal.SIGKILL)
+        p.communicate()
+        return 124, "TIMEOUT"
 
 
 def code_region(src):
@@ -105,7 +113,7 @@ def main():
             if "error" in out:
                 m["status"] = "does-not-compile"
             else:
-                rc, out = sh("cargo test --offline --lib 2>&1 | grep 'test result'", cwd="/repo")
+                rc, out = sh("cargo test --offline --lib 2>&1 | grep 'test result'", cwd="/repo", timeout=240)
                 if " 0 failed" not in out:
                     m["status"] = "killed-by-pinned-tests"
                 else:
